@@ -36,24 +36,27 @@ ASSUMPTIONS = [
     'evaluation outcomes of the round trip are compared as canonical values (node = kind + document position); '
     'non-ElementPathError exceptions raised by evaluation are compared by type only (escapes are C03)',
 ]
-EXHAUSTIVE_NOTE = ('sub-check pairs is a complete enumeration: every operator form of a version (all binary operators, '
+EXHAUSTIVE_NOTE = ('pairs is enumerated for three parser configurations (default; compatibility_mode=True; strict=False + '
+                   'default_namespace + xsd_version 1.1 + base_uri + function_namespace + default_collation + variable_types), the '
+                   'oracle being the EBNF of the version: 44 668 cases. sub-check kwnames is a complete enumeration too: 70 keyword '
+                   'spellings (operators, expression keywords, axis, kind-test and function names) x 8 suffixes (.x -2 -a _x 1 x . -) '
+                   'as element / attribute / variable name, path step, predicate, argument, unary, type, flow operand and on both '
+                   'sides of binary operators (6 per name, rotating over all): 8400-10640 expressions per version, each checked '
+                   'for one name token (shape), tight / newline / comment whitespace variants and source round trip. '
+                   'sub-check pairs is a complete enumeration: every operator form of a version (all binary operators, '
                    'path/root, unary, predicate, call, the four type operators, comma, if/for/some/every/let, dynamic call, '
                    'inline function, arrow, lookup, map/array constructors) nested in every operand slot of every other '
                    'form: 730 / 3818 / 4692 / 5974 expressions for XPath 1.0 / 2.0 / 3.0 / 3.1, each rendered minimally and '
                    'fully parenthesised')
+# floors are about the GENERATOR only (classes computed from the case, never from what elementpath did with it):
+# an outcome-dependent floor would turn a gross defect into a harness error instead of a violation
 FLOORS = {
     'grouping:multi-level': (0.25, 'grouping:case'),
     'grouping:same-level-pair': (0.08, 'grouping:case'),
     'grouping:parens-needed': (0.15, 'grouping:case'),
-    'grouping:ok': (0.60, 'grouping:case'),
-    'pairs:ok': (0.60, 'pairs:case'),
     'pairs:cfg-compat': (0.25, 'pairs:case'),
     'grouping:cfg-compat': (0.20, 'grouping:case'),
-    'kwnames:ok': (0.90, 'kwnames:case'),
     'ws:comment': (0.30, 'ws:case-2.0+'),
-    'ws:variant-ok': (0.50, 'ws:case'),
-    'roundtrip:value-compared': (0.50, 'roundtrip:case'),
-    'negative:rejected': (0.40, 'negative:case'),
 }
 
 VERS = X.VERSIONS
